@@ -45,7 +45,8 @@ def call_input(k, n):
 
 class Config:
     def __init__(self, name, kind="functor", workers=1, quota=None, wq=1.0, rq=None, calls=(),
-                 until_all_ready=False, fault=None, family=None, required=()):
+                 until_all_ready=False, fault=None, family=None, required=(), delayed_put=False,
+                 precreate=False, wid_offset=0):
         self.name = name
         self.kind = kind                  # functor | factory
         self.workers = workers
@@ -57,15 +58,20 @@ class Config:
         self.fault = fault                # None | ("begin", worker index) | ("item", j)  j-th item seen overall
         self.family = family or name
         self.required = list(required)    # regexes on source lines that some execution must reach
+        self.wid_offset = wid_offset      # the pool has handed out this many worker ids before (long-lived pool)
+        self.precreate = precreate        # all generators are created first, then consumed one after the other
+        self.delayed_put = delayed_put    # explore late delivery of multiprocessing.Queue puts (needs an env budget)
 
     def describe(self):
         return {"name": self.name, "pool": self.kind, "workers": self.workers, "quota": self.quota,
                 "work_queue_maxsize": self.wq, "results_queue_maxsize": self.rq, "calls": self.calls,
-                "until_all_ready": self.until_all_ready, "fault": self.fault}
+                "until_all_ready": self.until_all_ready, "fault": self.fault, "delayed_put": self.delayed_put,
+                "precreate": self.precreate, "wid_offset": self.wid_offset}
 
 
 def make_driver(cfg):
     def driver(s):
+        s.user["delayed_put"] = cfg.delayed_put
         M = vmp.load(SRC, "windpyutils.parallel.own_proc_pools")
         log = Log()
         out = {"calls": [], "entered": False, "exited": False, "log": log, "ready_returned": None}
@@ -111,6 +117,9 @@ def make_driver(cfg):
                 pass
             pool = Pool(cfg.workers, Factory(), work_queue_maxsize=cfg.wq, results_queue_maxsize=cfg.rq)
         out["pool"] = pool
+        if cfg.wid_offset and hasattr(pool, "_wid_counter"):
+            # as if many workers had been created (and replaced) on this pool before: ids beyond the small-int cache
+            object.__setattr__(pool, "_wid_counter", object.__getattribute__(pool, "_wid_counter") + cfg.wid_offset)
         with pool:
             out["entered"] = True
             def wait_ready():
@@ -119,6 +128,13 @@ def make_driver(cfg):
                 log.add(None, "ready-returned", [p.wid for p in procs])
             if cfg.until_all_ready:
                 wait_ready()
+            pre = {}
+            if cfg.precreate:
+                for k, call in enumerate(cfg.calls):
+                    mode, ikind, n, cs = call[:4]
+                    data = call_input(k, n)
+                    inp = vmp.LazyInput(data) if ikind == "lazy" else (iter(data) if ikind == "iter" else data)
+                    pre[k] = pool.imap(inp, cs) if mode == "imap" else pool.imap_unordered(inp, cs)
             for k, call in enumerate(cfg.calls):
                 mode, ikind, n, cs = call[:4]
                 exact = len(call) > 4 and call[4] == "exact"
@@ -128,7 +144,7 @@ def make_driver(cfg):
                 rec = {"mode": mode, "data": data, "cs": cs, "yielded": [], "finished": False, "leftover": None}
                 out["calls"].append(rec)
                 inp = vmp.LazyInput(data) if ikind == "lazy" else (iter(data) if ikind == "iter" else data)
-                gen = pool.imap(inp, cs) if mode == "imap" else pool.imap_unordered(inp, cs)
+                gen = pre[k] if k in pre else (pool.imap(inp, cs) if mode == "imap" else pool.imap_unordered(inp, cs))
                 if exact:
                     # the consumer takes exactly len(data) results (zip / islice style) and closes the generator at
                     # its last yield instead of driving it to StopIteration
@@ -489,7 +505,8 @@ def _run_entry(report, prop, entry, kit, parallel):
                     max_choice_points=ex.stats["max_choice_points"], max_tasks=ex.stats["max_tasks"],
                     config=cfg.describe(), violations_of_other_properties=other,
                     operation_labels=dict(sorted(ex.label_counts.items())),
-                    unreached_required=missing, wall_s=round(time.time() - t0, 2))
+                    unreached_required=missing, harness_retries=ex.stats.get("harness_retries", 0),
+                    wall_s=round(time.time() - t0, 2))
         for o in ex.observations:
             report.nontrivial((cfg.name, o))
         for smp in ex.samples[:2]:
@@ -504,7 +521,9 @@ def replay_pool(rec):
     c = rp["config"]
     cfg = Config(c["name"], kind=c["pool"], workers=c["workers"], quota=c["quota"], wq=c["work_queue_maxsize"],
                  rq=c["results_queue_maxsize"], calls=[tuple(x) for x in c["calls"]],
-                 until_all_ready=c["until_all_ready"], fault=tuple(c["fault"]) if c["fault"] else None)
+                 until_all_ready=c["until_all_ready"], fault=tuple(c["fault"]) if c["fault"] else None,
+                 delayed_put=c.get("delayed_put", False), precreate=c.get("precreate", False),
+                 wid_offset=c.get("wid_offset", 0))
     pin_self()
     racy = {(tuple(a), b) for a, b in rp["racy"]}
     outs = []
